@@ -1,7 +1,7 @@
 #!/bin/sh
 # usage: tools/confirm_seed.sh <Cxx> <k>  -- confirms seeded change /tmp/mut/<Cxx>/out/m<k>.diff in a scratch worktree
 # (applies; demo exits 0 without / 1 with; pinned suite still 182 passed) and stores it under seeded/<Cxx>-m<k>/
-ID="$1"; K="$2"; HERE="$(cd "$(dirname "$0")/.." && pwd)"; SRC=/tmp/mut/$ID/out; S=/tmp/seedrepo
+ID="$1"; K="$2"; HERE="$(cd "$(dirname "$0")/.." && pwd)"; SRC="${3:-/tmp/mut/$ID/out}"; NAME="${4:-m$K}"; S=/tmp/seedrepo
 [ -d "$S" ] || git -C /repo worktree add -q --detach "$S" HEAD
 git -C "$S" checkout -q --detach "$(git -C /repo rev-parse HEAD)" && git -C "$S" checkout -- . && git -C "$S" clean -fdq
 /venv/bin/python "$SRC/demo$K.py" "$S" >/tmp/seed_demo0.out 2>&1; D0=$?
@@ -12,7 +12,7 @@ git -C "$S" checkout -- . ; git -C "$S" clean -fdq
 echo "demo unchanged exit=$D0 changed exit=$D1 suite: $SUITE"
 case "$SUITE" in *"20 failed, 182 passed"*) ;; *) echo "suite differs from baseline: NOT kept"; exit 1;; esac
 [ "$D0" = 0 ] && [ "$D1" != 0 ] || { echo "demo does not discriminate: NOT kept"; exit 1; }
-D="$HERE/seeded/$ID-m$K"; mkdir -p "$D"
+D="$HERE/seeded/$ID-$NAME"; mkdir -p "$D"
 cp "$SRC/m$K.diff" "$D/patch.diff"; cp "$SRC/demo$K.py" "$D/demo.py"
 /venv/bin/python - "$SRC/meta$K.json" "$D/meta.json" "$D0" "$D1" "$SUITE" <<'PY'
 import json,sys
